@@ -2,18 +2,22 @@
 (***************************************************************************)
 (* Case generator for C15 (direction G).                                   *)
 (*                                                                         *)
-(* Exhaustive mode (InitX/NextX): one state per adjacency mask over GEN_N  *)
-(* nodes (bit (i-1)*N + (j-1) of the mask = edge i -> j); the k-th mask is *)
-(* (GEN_LO + k * GEN_STRIDE) mod 2^(N*N), k < GEN_CNT.  With stride 1 and  *)
-(* GEN_CNT = 2^(N*N) that is ALL digraphs on N nodes; with a large odd     *)
-(* stride it is a sample without repetition.  GEN_ONLY = "acyclic" keeps   *)
-(* only the acyclic ones (all 543 DAGs on 4 nodes for the order check).    *)
-(* Random mode (InitS/NextS, run with -simulate -seed): graphs on          *)
-(* GEN_NMIN .. GEN_NMAX nodes grown edge by edge in one of four modes      *)
-(*   dag : an edge is only added when it does not close a cycle            *)
-(*   mix : any edge, self edges included                                   *)
-(*   ring: starts from one cycle through all nodes (a long cycle)          *)
-(*   two : starts from two disjoint cycles (several SCCs)                  *)
+(* Exhaustive mode (InitX/NextX): one state per adjacency mask over n      *)
+(* nodes (bit (i-1)*n + (j-1) of the mask = edge i -> j); the k-th mask of *)
+(* a segment is (lo + k * stride) mod 2^(n*n), k < cnt.  With stride 1 and *)
+(* cnt = 2^(n*n) that is ALL digraphs on n nodes; with a large odd stride  *)
+(* it is a sample without repetition.  only = "acyclic" walks the digraphs *)
+(* without self edges and keeps the acyclic ones (all 543 DAGs on 4        *)
+(* nodes, all 29 281 on 5 nodes: the inputs on which the order matters).   *)
+(* Pseudo-random segments (mode "rand"): graph number k of a segment is a  *)
+(* deterministic function (the hash below) of GEN_SALT and lo + k: its     *)
+(* size n in nmin .. nmax, a density, and one of the shapes                *)
+(*   dag : edges only from higher to lower hash rank (acyclic, source      *)
+(*         order usually not topological)                                  *)
+(*   fwd : edges only to earlier nodes (acyclic, source order topological) *)
+(*   mix : any edge, self edges included, sparse (several small SCCs)      *)
+(*   ring: one cycle through all nodes (a long cycle) plus dag edges       *)
+(*   two : two disjoint cycles (several SCCs) plus forward edges           *)
 (*                                                                         *)
 (* Each graph is then decorated -- which kind of definition each node is   *)
 (* and through which part of it (start / size / condition / value /        *)
@@ -24,32 +28,24 @@
 (* graph is, is defined by Deps!DependsOn and decided by DepsCheck, not    *)
 (* here.                                                                   *)
 (***************************************************************************)
-EXTENDS Deps, TLC, Json, IOUtils
+EXTENDS Deps, Json, IOUtils
 
 EnvNat(name, dflt) == IF name \in DOMAIN IOEnv THEN atoi(IOEnv[name]) ELSE dflt
 EnvStr(name, dflt) == IF name \in DOMAIN IOEnv THEN IOEnv[name] ELSE dflt
 
 FAM   == EnvStr("GEN_FAM", "struct")     \* "struct" | "static" | "mods"
-GN    == EnvNat("GEN_N", 3)
-GLO   == EnvNat("GEN_LO", 0)
-GCNT  == EnvNat("GEN_CNT", 512)          \* how many masks
-GSTRIDE == EnvNat("GEN_STRIDE", 1)       \* odd => a bijection on 0 .. 2^(N*N)-1
-GONLY == EnvStr("GEN_ONLY", "all")       \* "all" | "acyclic": print only acyclic graphs
 GSALT == EnvNat("GEN_SALT", 0)
-NMIN  == EnvNat("GEN_NMIN", 5)
-NMAX  == EnvNat("GEN_NMAX", 8)
-NSALT == EnvNat("GEN_NSALT", 40)
 TAG   == EnvStr("GEN_TAG", "g")
 
 ---------------------------------------------------------------------------
 (* deterministic hash (quadratic steps modulo a prime < 2^15.5, so nothing
    overflows TLC's 32-bit integers) *)
 HP == 46337
-H(x) == LET y == x % HP IN (y * y + y * 3 + 12345) % HP
+H(x) == CHOOSE v \in {(y * y + y * 3 + 12345) % HP : y \in {x % HP}} : TRUE   \* x evaluated once
 Rnd(salt, a, b) == H(H(H(salt) + a * 7 + 3) + b * 11 + 5)
 
-RECURSIVE Pow2(_)
-Pow2(k) == IF k = 0 THEN 1 ELSE 2 * Pow2(k - 1)
+
+Pow2(k) == 2 ^ k
 Bit(m, k) == (m \div Pow2(k)) % 2 = 1
 EdgesOfMask(n, m) == {<<i, j>> \in (1 .. n) \X (1 .. n) : Bit(m, (i - 1) * n + (j - 1))}
 
@@ -70,71 +66,91 @@ KindOf(n, E, salt, i) ==
     ELSE IF Succ(E, i) = {} /\ Rnd(salt, i, 1) % 4 = 0 THEN "param"
     ELSE KindTable[(Rnd(salt, i, 2) % 8) + 1]
 
-SlotOf(n, E, salt, i, j) ==
-    LET sl == SlotsOf(KindOf(n, E, salt, i))
+Kinds(n, E, salt) == [i \in 1 .. n |-> KindOf(n, E, salt, i)]
+
+SlotOf(kinds, salt, i, j) ==
+    LET sl == SlotsOf(kinds[i])
     IN  sl[(Rnd(salt, i * 16 + j, 3) % Len(sl)) + 1]
 
-NodeOf(n, E, salt, i) ==
-    LET kind == KindOf(n, E, salt, i)
-        out(slot) == {j \in Succ(E, i) : SlotOf(n, E, salt, i, j) = slot}
-        earlierPhys == \E k \in 1 .. (i - 1) : KindOf(n, E, salt, k) \in PhysKinds
+NodeOf(n, E, salt, kinds, slots, i) ==
+    LET kind == kinds[i]
+        out(slot) == {j \in Succ(E, i) : slots[<<i, j>>] = slot}
+        earlierPhys == \E k \in 1 .. (i - 1) : kinds[k] \in PhysKinds
         synth == IF kind = "virt" /\ Rnd(salt, i, 5) % 8 = 0
                  THEN {n + 1 + (Rnd(salt, i, 6) % 3)} ELSE {}
     IN  [kind  |-> kind,
          next  |-> kind \in PhysKinds /\ earlierPhys /\ Rnd(salt, i, 4) % 4 = 0,
          alias |-> Rnd(salt, i, 7) % 2 = 0,
-         grp   |-> (Rnd(salt, i, 8) % 2) + 1,       \* enum family: which enum holds the value
+         grp   |-> (Rnd(salt, i, 8) % 2) + 1,       \* static family: which enum / struct holds it
          start |-> SortedSeq(out("start")),
          size  |-> SortedSeq(out("size")),
          cond  |-> SortedSeq(out("cond")),
          args  |-> SortedSeq(out("args")),
          value |-> SortedSeq(out("value") \cup synth)]
 
-Case(id, n, E, salt) ==
-    [id |-> id, fam |-> FAM, n |-> n, salt |-> salt,
-     nodes |-> [i \in 1 .. n |-> NodeOf(n, E, salt, i)]]
+(* kinds and slots are bound by \E over singleton sets so that TLC computes them once *)
+Emitted(id, n, E, salt) ==
+    \E kinds \in {TLCEval(Kinds(n, E, salt))} :
+    \E slots \in {TLCEval([e \in E |-> SlotOf(kinds, salt, e[1], e[2])])} :
+        PrintT(ToJson([id |-> id, fam |-> FAM, n |-> n, salt |-> salt,
+                       nodes |-> [i \in 1 .. n |-> NodeOf(n, E, salt, kinds, slots, i)]]))
 
 ---------------------------------------------------------------------------
 (* Exhaustive enumeration by mask                                          *)
 VARIABLE st
 
-InitX == st = [k |-> 0]
-NextX ==
-    /\ st.k < GCNT
-    /\ LET m == (GLO + st.k * GSTRIDE) % Pow2(GN * GN)
-           E == EdgesOfMask(GN, m)
-       IN  (GONLY = "all" \/ ~HasCycle(1 .. GN, E)) =>
-               PrintT(ToJson(Case(TAG \o ToString(GN) \o "-" \o ToString(m), GN, E, (GSALT + m) % HP)))
-    /\ st' = [k |-> st.k + 1]
+(* GEN_ONLY = "acyclic": the k-th candidate is a digraph WITHOUT self edges (bit
+   (i-1)*(N-1) + position of j among the other nodes), i.e. k ranges over
+   0 .. 2^(N*(N-1))-1, and only the acyclic candidates are printed.            *)
+EdgesOfOffDiag(n, k) ==
+    {<<i, j>> \in (1 .. n) \X (1 .. n) :
+        i # j /\ Bit(k, (i - 1) * (n - 1) + (IF j < i THEN j - 1 ELSE j - 2))}
 
----------------------------------------------------------------------------
-(* Random growth (simulation)                                              *)
 Ring(lo, hi) == {<<i, IF i = hi THEN lo ELSE i + 1>> : i \in lo .. hi}
+Shapes == <<"dag", "dag", "fwd", "mix", "ring", "two">>
 
-StartEdges(n, mode) ==
-    CASE mode = "ring" -> Ring(1, n)
-      [] mode = "two"  -> Ring(1, n \div 2) \cup Ring(n \div 2 + 1, n)
-      [] OTHER -> {}
+RandN(sg, salt) == sg.nmin + (Rnd(salt, 0, 12) % (sg.nmax - sg.nmin + 1))
+RandShape(salt) == Shapes[(Rnd(salt, 0, 11) % Len(Shapes)) + 1]
+RandEdgesWith(n, shape, dens, coin, rank) ==
+    LET pairs == DOMAIN coin
+        dag == {p \in pairs : rank[p[1]] > rank[p[2]] /\ coin[p] < dens}
+        fwd == {p \in pairs : p[2] < p[1] /\ coin[p] < dens}
+    IN  CASE shape = "dag"  -> dag
+          [] shape = "fwd"  -> fwd
+          [] shape = "mix"  -> {p \in pairs : coin[p] < 1 + (dens % 2)}
+          [] shape = "ring" -> Ring(1, n) \cup {p \in dag : coin[<<p[2], p[1]>>] < 4}
+          [] OTHER          -> Ring(1, n \div 2) \cup Ring(n \div 2 + 1, n) \cup {p \in fwd : coin[<<p[2], p[1]>>] < 6}
 
-InitS ==
-    \E n \in NMIN .. NMAX, mode \in {"dag", "dag", "mix", "ring", "two"}, salt \in 0 .. (NSALT - 1),
-       extra \in 0 .. 2 :
-        st = [n |-> n, mode |-> mode, salt |-> (GSALT * 131 + salt) % HP, E |-> StartEdges(n, mode),
-              todo |-> IF mode \in {"dag", "mix"} THEN n + extra * (n \div 2) ELSE extra,
-              done |-> FALSE]
+RandEdges(n, salt) ==
+    UNION {TLCEval(RandEdgesWith(n, RandShape(salt), 2 + (Rnd(salt, 0, 13) % 4), coin, rank)) :
+              coin \in {TLCEval([p \in (1 .. n) \X (1 .. n) |-> Rnd(salt, p[1] * 16 + p[2], 9) % 12])},
+              rank \in {TLCEval([i \in 1 .. n |-> Rnd(salt, i, 10) * 16 + i])}}
 
-AddEdge ==
-    /\ ~st.done /\ st.todo > 0
-    /\ \E i \in 1 .. st.n, j \in 1 .. st.n :
-          /\ <<i, j>> \notin st.E
-          /\ st.mode = "dag" => (i # j /\ i \notin Reach(st.E, j))
-          /\ st' = [st EXCEPT !.E = st.E \cup {<<i, j>>}, !.todo = st.todo - 1]
+(* GEN_PLAN: a JSON file with a list of segments [n, lo, cnt, stride, only, nmin, nmax]; one
+   generator process walks all its segments (a JVM start costs more than a
+   thousand cases).                                                           *)
+Plan == TLCGet(2)
 
-Emit ==
-    /\ ~st.done /\ st.todo = 0
-    /\ PrintT(ToJson(Case(TAG \o ToString(st.n) \o st.mode, st.n, st.E, st.salt)))
-    /\ st' = [st EXCEPT !.done = TRUE]
+InitX == TLCSet(2, JsonDeserialize(IOEnv.GEN_PLAN)) /\ st = [seg |-> 1, k |-> 0]
 
-NextS == AddEdge \/ Emit
+NextX ==
+    /\ st.seg <= Len(Plan)
+    /\ \E sg \in {Plan[st.seg]} :
+         IF st.k >= sg.cnt
+         THEN st' = [seg |-> st.seg + 1, k |-> 0]
+         ELSE /\ IF sg.only = "rand"
+                 THEN \E salt \in {H(GSALT * 211 + sg.lo + st.k)} :
+                      \E n \in {RandN(sg, salt)} :
+                      \E E \in {TLCEval(RandEdges(n, salt))} :
+                         Emitted(TAG \o ToString(n) \o RandShape(salt) \o ToString(sg.lo + st.k), n, E, salt)
+                 ELSE IF sg.only = "acyclic"
+                 THEN \E m \in {(sg.lo + st.k * sg.stride) % Pow2(sg.n * (sg.n - 1))} :
+                      \E E \in {TLCEval(EdgesOfOffDiag(sg.n, m))} :
+                         ~HasCycle(1 .. sg.n, E) =>
+                             Emitted(TAG \o ToString(sg.n) \o "a" \o ToString(m), sg.n, E, (GSALT + m) % HP)
+                 ELSE \E m \in {(sg.lo + st.k * sg.stride) % Pow2(sg.n * sg.n)} :
+                      \E E \in {TLCEval(EdgesOfMask(sg.n, m))} :
+                         Emitted(TAG \o ToString(sg.n) \o "-" \o ToString(m), sg.n, E, (GSALT + m) % HP)
+              /\ st' = [st EXCEPT !.k = st.k + 1]
 
 =============================================================================
